@@ -24,6 +24,7 @@ What is FALSE of the code (witnesses below, replayed on the real handlers by the
 -/
 import Ssv.Proofs.DutiesLiveProp
 import Ssv.Proofs.DutiesLiveAtt
+import Ssv.Proofs.DutiesRepair
 
 namespace Ssv.Duties
 
@@ -288,5 +289,25 @@ example :
        .tick 30 30 (.ok [1] [⟨0, 1, 8⟩]) .fail, .tick 31 31 .fail .fail, .tick 32 32 .fail .fail]
     (⟨8, 4⟩ : Net).ok = true ∧ envOK none 20 evs = true ∧ quietOK .sync ⟨8, 4⟩ (ffInit .sync) none evs = true ∧
     execPairs (run .sync ⟨8, 4⟩ 20 (.ok [] []) evs) = [(20, 1), (30, 1), (31, 1), (32, 1)] := by decide
+
+/-! ## the repair (notes/C16.md; NOT applied to /repo) -/
+
+/-- For the model of the repaired attester and sync-committee handlers (`stepR`: at the first tick of a new epoch /
+    period with `fetchNextEpoch` / `fetchNextPeriod` still set, fetch the current epoch / period before executing)
+    the FULL exactly-once-if-fetched statement holds: no `quietOK` side condition. -/
+theorem C16_repaired_exactly_once_if_fetched_full (n : Net) (clock0 : Nat) (r0 : FetchRes) (evs : List Event)
+    (hn : n.ok = true) (henv : envOK none clock0 evs = true) :
+    exactlyOnceOK .att n (runR .att n clock0 r0 evs) = true ∧
+    exactlyOnceOK .sync n (runR .sync n clock0 r0 evs) = true := by
+  have hspe : 0 < n.spe := by
+    simp only [Net.ok, Bool.and_eq_true, decide_eq_true_eq] at hn
+    omega
+  exact ⟨att_exactly_runR n hspe clock0 r0 evs henv, sync_exactly_runR n clock0 r0 evs henv⟩
+
+/-- on the boundary-reorg witness the repaired model dispatches both duties of epoch 2, the model of the existing
+    code none -/
+theorem C16_repaired_dispatches_witness :
+    execPairs (runR .att ⟨32, 256⟩ 0 .noIdx witnessReorg) = [(64, 1), (66, 2)] ∧
+    execPairs (run .att ⟨32, 256⟩ 0 .noIdx witnessReorg) = [] := repaired_dispatches_witness
 
 end Ssv.Duties
